@@ -16,7 +16,7 @@ for sl in mod.slices(tier):
         continue
     pool = Pool(sl.terminals, nenv=sl.nenv, seed=1, complex_env=sl.complex_env, small=sl.small)
     name = "MC_" + sl.name.replace("-", "_")
-    mc = replay.mc_module(name, pool, sl.lits, sl.zeros, sl.idx, sl.ops | sl.finalops, sl.maxnodes, sl.maxrank, sl.maxdim, sl.finalops, sl.levels)
+    mc = replay.mc_module(name, pool, sl.lits, sl.zeros, sl.idx, sl.ops | sl.finalops, sl.maxnodes, sl.maxrank, sl.maxdim, sl.finalops, sl.levels, ())
     cfg = replay.mc_cfg(pool, sl.maxnodes, sl.maxrank, sl.maxdim, dump=False, invariants=(), props=(), mikinds=sl.mikinds)
     r = tlc.run(name, cfg, mc_text=mc, mc_name=name, workers=4, timeout=90)
     print(sl.name, r.outcome, r.distinct, r.generated, round(r.wall, 1), flush=True)
